@@ -818,6 +818,13 @@ func (in *Interp) prelude(fn *ssa.Function, name string, args []Value) (Value, b
 		return ts.And(args[0].(*Term), args[1].(*Term)), true
 	case "zzOr":
 		return ts.Or(args[0].(*Term), args[1].(*Term)), true
+	case "zzSAt":
+		sv := in.viewOf(args[0])
+		i := args[1].(*Term)
+		if sv.O == nil {
+			return ts.Const(8, 0), true
+		}
+		return in.viewAt(sv, i), true
 	case "zzAt":
 		s := args[0].(SliceV)
 		i := args[1].(*Term)
